@@ -158,6 +158,8 @@ pub struct WorldSat<'a> {
     pub lock_time: u32,
     pub sequence: u32,
     pub version: i32,
+    /// answer every time-lock question with yes (a node whose clock view is wrong)
+    pub lie_locks: bool,
 }
 
 impl<'a> WorldSat<'a> {
@@ -172,6 +174,7 @@ impl<'a> WorldSat<'a> {
             lock_time: tx.lock_time.to_consensus_u32(),
             sequence: tx.input[idx].sequence.0,
             version: tx.version.0,
+            lie_locks: false,
         }
     }
 
@@ -240,8 +243,8 @@ impl<'a> Satisfier<DefiniteDescriptorKey> for WorldSat<'a> {
     fn lookup_hash256(&self, h: &hash256::Hash) -> Option<[u8; 32]> { self.preimage(HashKind::Hash256, h.as_byte_array()) }
     fn lookup_ripemd160(&self, h: &ripemd160::Hash) -> Option<[u8; 32]> { self.preimage(HashKind::Ripemd160, h.as_byte_array()) }
     fn lookup_hash160(&self, h: &hash160::Hash) -> Option<[u8; 32]> { self.preimage(HashKind::Hash160, h.as_byte_array()) }
-    fn check_older(&self, n: relative::LockTime) -> bool { tx_satisfies_older(self.version, self.sequence, n.to_consensus_u32()) }
-    fn check_after(&self, n: absolute::LockTime) -> bool { tx_satisfies_after(self.lock_time, self.sequence, n.to_consensus_u32()) }
+    fn check_older(&self, n: relative::LockTime) -> bool { self.lie_locks || tx_satisfies_older(self.version, self.sequence, n.to_consensus_u32()) }
+    fn check_after(&self, n: absolute::LockTime) -> bool { self.lie_locks || tx_satisfies_after(self.lock_time, self.sequence, n.to_consensus_u32()) }
 }
 
 // ---------------------------------------------------------------------------------------------
@@ -570,4 +573,83 @@ pub fn drop_invalid_sigs(env: &crate::sim::Env, tx: &Transaction, idx: usize, sa
         Ok(d) => secp.verify_schnorr(&sig.signature, &Message::from_digest(d), &uni.keys[*k].xonly).is_ok(),
         Err(_) => false,
     });
+}
+
+/// "God view" satisfier: real signatures by `keys` (subset of the descriptor's keys) over input `idx`
+/// of `tx`, every preimage in `hashes`. Used where a monitor must re-sign a variant of the transaction.
+pub fn god_sat<'a>(env: &'a crate::sim::Env, tx: &Transaction, idx: usize, keys: &[usize], hashes: &[usize], aux_seed: u64) -> WorldSat<'a> {
+    let mut sat = WorldSat::empty(&env.uni, &env.by_expr, tx, idx);
+    let prevouts: Vec<TxOut> = env.inputs.iter().map(|i| i.utxo.clone()).collect();
+    if tx.input.len() != prevouts.len() {
+        return sat;
+    }
+    for h in hashes {
+        sat.preimages.insert(*h);
+    }
+    let ic = &env.inputs[idx];
+    let secp = &env.uni.secp;
+    let mut aux = Rng::new(aux_seed);
+    match &ic.desc {
+        Descriptor::Tr(tr) => {
+            let rt = crate::mon_ref::ref_taproot_of(env, tr);
+            let ik = env.by_expr.get(&tr.internal_key().to_string()).copied();
+            for k in keys {
+                let key = &env.uni.keys[*k];
+                let kp = secp256k1::Keypair::from_secret_key(secp, &key.secret);
+                if ik == Some(*k) {
+                    if let (Some((rt, _)), Ok(d)) = (&rt, ref_digest(tx, &prevouts, idx, &SpendCtx::TapKey, 0)) {
+                        use bitcoin::key::TapTweak;
+                        let root = rt.merkle_root.map(bitcoin::taproot::TapNodeHash::from_byte_array);
+                        let tweaked = kp.tap_tweak(secp, root).to_keypair();
+                        let sig = secp.sign_schnorr_with_aux_rand(&Message::from_digest(d), &tweaked, &aux.bytes32());
+                        sat.tap_key.insert(*k, bitcoin::taproot::Signature { signature: sig, sighash_type: TapSighashType::Default });
+                    }
+                }
+                for leaf in tr.leaves() {
+                    let occurs = leaf.miniscript().iter_pk().any(|pk| env.by_expr.get(&pk.to_string()) == Some(k));
+                    if occurs {
+                        let lh = TapLeafHash::from_byte_array(crate::vm::tapleaf_hash(0xc0, leaf.miniscript().encode().as_bytes()));
+                        if let Ok(d) = ref_digest(tx, &prevouts, idx, &SpendCtx::TapLeaf { leaf_hash: lh }, 0) {
+                            let sig = secp.sign_schnorr_with_aux_rand(&Message::from_digest(d), &kp, &aux.bytes32());
+                            sat.tap_script.insert((*k, lh), bitcoin::taproot::Signature { signature: sig, sighash_type: TapSighashType::Default });
+                        }
+                    }
+                }
+            }
+        }
+        d => {
+            let script = d.explicit_script().ok();
+            for k in keys {
+                let key = &env.uni.keys[*k];
+                let pkb = key.public.to_bytes();
+                if let Some(ctx) = ecdsa_ctx_for(ic.kind, &ic.spk, script.as_ref(), script.as_ref(), &pkb) {
+                    if let Ok(dg) = ref_digest(tx, &prevouts, idx, &ctx, 1) {
+                        let sig = secp.sign_ecdsa(&Message::from_digest(dg), &key.secret);
+                        sat.ecdsa.insert(*k, bitcoin::ecdsa::Signature { signature: sig, sighash_type: EcdsaSighashType::All });
+                    }
+                }
+            }
+        }
+    }
+    sat
+}
+
+/// The numeric arguments of every `after(..)` / `older(..)` in a descriptor text.
+pub fn lock_values(text: &str) -> (Vec<u32>, Vec<u32>) {
+    let grab = |name: &str| -> Vec<u32> {
+        let mut out = vec![];
+        let mut rest = text;
+        while let Some(p) = rest.find(name) {
+            let tail = &rest[p + name.len()..];
+            let end = tail.find(')').unwrap_or(0);
+            if let Ok(n) = tail[..end].parse::<u32>() {
+                out.push(n);
+            }
+            rest = tail;
+        }
+        out.sort();
+        out.dedup();
+        out
+    };
+    (grab("after("), grab("older("))
 }
